@@ -74,6 +74,9 @@ InitPermsEnv == LET K == atoi(IOEnv.VERIF_K)
 \* quick variant: at most about a third of the orderings of each selected multiset
 InitPermsEnvQ == { f \in InitPermsEnv : HashCv(f) % 3 = 0 }
 
+\* one assignment in which the windows of an azimuth are pairwise different curves and the azimuths differ
+InitDistinct == { [a \in Az |-> [w \in Win |-> (((w - 1) + 2 * (a - 1)) % Len(Alphabet)) + 1]] }
+
 \* the orderings of one tall tent (curve 1 of Alpha8d, at grid point 2) and three medium tents (curve 5, at grid point 6)
 InitTallMedium == { f \in InitAll : SortAsc(f[1]) = <<1, 5, 5, 5>> }
 
